@@ -181,6 +181,13 @@ SPEC = {
              "nontrivial": _contended},
             {"name": "multichan", "harness": "multichan", "model": "MultiChan", "runtime": True, "gen": gen_multichan,
              "nontrivial": lambda s: s["hist"].get("w waiters", 0) >= 1},
+            # "for all capacities": every capacity exponent the constructors admit (1 <= k < 32); the
+            # object must really have the 2^k slots the access-level models take for granted
+            # (oracle-only parts: allocation size, recorded capacity and mask; a refusal is fine)
+            {"name": "capacity-bounded", "harness": "chancap", "model": None, "runtime": True,
+             "gen": lambda rng, tier: [{"args": ["b", k], "env": {"VR_SEED": 1}, "timeout": 120} for k in range(1, 32)]},
+            {"name": "capacity-multi", "harness": "mchancap", "model": None, "runtime": True,
+             "gen": lambda rng, tier: [{"args": ["m", k], "env": {"VR_SEED": 1}, "timeout": 120} for k in range(1, 32)]},
         ],
         "rule": "cases = (script, kernel threads 1-3, capacity, scheduler kind+seed) from VERIF_SEED; scripts are deadlock-free by construction (as many receives as sends; pure sender / pure receiver fibers; client contracts of each channel type respected); bounded/unbounded/sp channels: ~60% one blocking receive per message on a channel with a ready_signal, ~20% blocking receives mixed with *_try_receive and a final try_receive drain loop, ~20% channels created with a NULL signal (spin mode) with and without try_receive (a blocking receive is only entered while a message is still owed; no blocking receive on a spinning unbounded/sp channel with ONE kernel thread); distinct = different (harness args, sha1 of the (thread,kind,cell) access sequence); non-trivial = a fiber really went to sleep (signal: a WAITING/READY state write; multichan: the waiter list was written) or operations interleaved / a CAS failed",
         "trusted_base": [
